@@ -56,6 +56,10 @@ mutant("c16-python-skip-write-if-exists", "C16", r"python:output-differs",
          "    for file_name in code:\n        if (output_path / file_name).exists() and (output_path / file_name).stat().st_size > 100000:\n            continue\n        (output_path / file_name).write_text(code[file_name], encoding=\"utf-8\")")],
        ["--plugin", "python", "--runs", "200"])
 
+mutant("c16-python-default-encoding", "C16", r"python:final-run-failed:UnicodeEncodeError",
+       [("generator/plugins/python/utils.py", "        (output_path / file_name).write_text(code[file_name], encoding=\"utf-8\")", "        (output_path / file_name).write_text(code[file_name])")],
+       ["--plugin", "python", "--runs", "160"])
+
 # ---- C05 ------------------------------------------------------------------------------------------
 mutant("c05-hand-edit-types-py", "C05", r"python:statement-differs",
        [("packages/python/lsprotocol/types.py", "class Position:\n", "class Position:\n    _hand_edited = True\n")])
@@ -83,6 +87,9 @@ mutant("c18-merge-reversed", "C18", r"merge-differs",
        [("generator/model.py", "        for model in models[1:]:", "        for model in reversed(models[1:]):")], ["--no-gate-classes"])
 mutant("c18-merge-takes-last-metadata", "C18", r"merge-(differs|rejected)",
        [("generator/model.py", "            spec.typeAliases.extend(addition.typeAliases)\n", "            spec.typeAliases.extend(addition.typeAliases)\n            spec.metaData.version = addition.metaData.version\n")], ["--no-gate-classes"])
+
+mutant("c18-no-validation-of-default-model", "C18", r"gate:",
+       [("generator/__main__.py", "        jsonschema.validate(json_model, schema)\n", "        if args.model:\n            jsonschema.validate(json_model, schema)\n")], ["--runs", "0"])
 
 # ---- C19 ------------------------------------------------------------------------------------------
 mutant("c19-flag-set-before-resolution", "C19", r"(create-raised|use-differs|build-differs|sweep-differs)",
